@@ -36,7 +36,7 @@ def plan(tier):
 
 
 def ncases(tier):
-    return 2500 if tier == "quick" else 20000
+    return 6000 if tier == "quick" else 20000
 
 
 def mixed_env_probe(ctx):
